@@ -524,6 +524,45 @@ func (t *vC19) merge(list []vRS) {
 	}
 }
 
+// merge64: store results carry float64 scores. Scores that differ only beyond float32
+// precision (0.75 and 0.75+1e-9, 2^24 and 2^24+1) are different scores: the merged entry of
+// an id carries EXACTLY its highest input score, and the sorted list is non-increasing
+// exactly.
+func (t *vC19) merge64(ids []uint32, scores []float64) {
+	t.c.Evaluations++
+	in := make([]HybridSearchResult, len(ids))
+	best := map[uint32]float64{}
+	for i := range ids {
+		in[i] = HybridSearchResult{ID: ids[i], Score: scores[i]}
+		if o, ok := best[ids[i]]; !ok || scores[i] > o {
+			best[ids[i]] = scores[i]
+		}
+	}
+	got := mergeResults(append([]HybridSearchResult(nil), in...))
+	gm := map[uint32]float64{}
+	for _, r := range got {
+		if _, dup := gm[r.ID]; dup {
+			t.bad("merge-duplicate-id", "float64", fmt.Sprintf("in=%v out=%v", in, got))
+		}
+		gm[r.ID] = r.Score
+	}
+	for id, w := range best {
+		if g, ok := gm[id]; !ok || g != w {
+			t.bad("merge-not-highest-score", "float64-exact", fmt.Sprintf("in=%v: id %d merged to %.17g, highest input score %.17g", in, id, g, w))
+		}
+	}
+	if len(gm) != len(best) {
+		t.bad("merge-not-highest-score", "float64-ids", fmt.Sprintf("in=%v out=%v", in, got))
+	}
+	sortResultsByScore(got)
+	for i := 1; i < len(got); i++ {
+		if got[i-1].Score < got[i].Score {
+			t.bad("sort-not-descending", "float64-exact", fmt.Sprintf("in=%v sorted=%v", in, got))
+		}
+	}
+	t.c.Nontrivial(fmt.Sprintf("merge64|%v|%v", ids, scores))
+}
+
 func init() {
 	vRegister(&vCheck{
 		ID: "C19", Level: "exploration", Engine: "domainmc",
@@ -725,8 +764,25 @@ func init() {
 						t.merge(list)
 					}
 				}
+				// float64 scores that coincide in float32: all lists of length <= 4 over 3 ids
+				s64 := []float64{0.75, 0.75 + 1e-9, 16777216, 16777217, -0.5, -0.5 - 1e-12, 1e-300, 0}
+				var rec func(idl []uint32, scl []float64)
+				rec = func(idl []uint32, scl []float64) {
+					if len(idl) > 0 {
+						t.merge64(idl, scl)
+					}
+					if len(idl) == 4 || (len(idl) == 3 && tier != "thorough") {
+						return
+					}
+					for _, id := range []uint32{1, 2, 3} {
+						for _, sc := range s64 {
+							rec(append(append([]uint32(nil), idl...), id), append(append([]float64(nil), scl...), sc))
+						}
+					}
+				}
+				rec(nil, nil)
 				c.Sample("[{1 1} {1 2.5} {2 -Inf}]")
-				c.Bound = "all NaN-free lists of length 0..4"
+				c.Bound = "all NaN-free lists of length 0..4; all lists of length <= 3 (4) over float64 scores that coincide in float32"
 			}})
 			return sh
 		},
